@@ -112,6 +112,7 @@ def _record(job):
             csv_opts["access_mode"] = mode
         with ctx as rec:
             d = driver.Db(tf, th, kind, bool(ai), path=path, ntk=ntk, nfk=nfk, csv_opts=csv_opts)
+            d.reading_batches = not want_io       # (a producer that reads the database is itself I/O: not while I/O is being judged)
             if kind == "mem" and opts.get("prefill_points"):
                 d.db.insert_multiple([th.point(tf, ap) for ap in opts["prefill_points"]])
             init = d.contents()
